@@ -203,11 +203,52 @@ def clause2(P, res):
         res.violated(rid, "sibling-pairs", f"expected >= 25 method pairs, found {n}")
 
 
+def clause3(P, res):
+    rid = "C11-3"
+    res.rule(rid, "tables that decide whose value a caller gets are keyed by the key itself: every map-typed field of fibre_cache whose values carry `V` (the shard maps, "
+                  "the entry guards over them, the in-flight load table) has key type `K` — equality on K, never a hash or another surrogate, so two keys that collide "
+                  "in a hash can never be handed each other's value")
+    n = 0
+    for a in sorted(P.adts):
+        if not a.startswith("fibre_cache::"):
+            continue
+        for f in P.adt_fields(a):
+            for m in re.finditer(r"(HashMap|BTreeMap|IndexMap)<", f["ty"]):
+                # split the generic argument list at top level
+                s = f["ty"][m.end():]
+                depth, args, cur = 0, [], ""
+                for ch in s:
+                    if ch == "<":
+                        depth += 1
+                    elif ch == ">":
+                        if depth == 0:
+                            args.append(cur.strip())
+                            break
+                        depth -= 1
+                    if ch == "," and depth == 0:
+                        args.append(cur.strip())
+                        cur = ""
+                    else:
+                        cur += ch
+                if len(args) < 2 or not re.search(r"\bV\b", args[1]):
+                    continue
+                n += 1
+                key = f"{a}.{f['name']}"
+                if args[0] == "K":
+                    res.holds(rid, key, f"{m.group(1)}<K, {args[1][:60]}>", where=a)
+                else:
+                    res.violated(rid, key, f"`{f['name']}` maps `{args[0]}` (not the key type K) to values carrying V: distinct keys that share that surrogate are handed each other's value",
+                                 where=a)
+    if n < 5:
+        res.violated(rid, "value-tables", f"expected >= 5 map-typed fields carrying V in fibre_cache, found {n}")
+
+
 def run(P, ctx):
     res = Result("C11")
     res.extra["explanation"] = ("Entry-guard continuity, compute exclusivity, blocking/async sibling agreement, and (by reference) the expiry gate on every read path. "
                                 "Per-key linearizability is a history property and is not decided; that all map mutations need the shard write lock is enforced by the types.")
     clause1(P, res)
     clause2(P, res)
+    clause3(P, res)
     res.notes.append("the expiry gate on read paths is decided under C12-1 (and C17-1 for iterators/snapshots); it is not repeated here")
     return res
